@@ -87,6 +87,29 @@ def dense(M):
     return np.asarray(M, dtype=float)
 
 
+MARGINS = {}   # name -> [max (deviation / tolerance) over the comparisons that PASSED, number of comparisons]
+
+
+def margin(name, ratio):
+    """record how close a passing float comparison came to its tolerance (1.0 = at the tolerance)"""
+    try:
+        r = float(ratio)
+    except Exception:
+        return
+    m = MARGINS.setdefault(name, [0.0, 0])
+    m[1] += 1
+    if r == r and r <= 1.0:
+        m[0] = max(m[0], r)
+
+
+def ratio_close(a, b, tol):
+    """max_i |a_i - b_i| / (tol * (1 + max(|a_i|, |b_i|))): the quantity `close`/`vclose` compare with 1"""
+    a = np.atleast_1d(np.asarray(a, dtype=float)).ravel(); b = np.atleast_1d(np.asarray(b, dtype=float)).ravel()
+    if a.shape != b.shape or a.size == 0:
+        return float("inf") if a.shape != b.shape else 0.0
+    return float(np.max(np.abs(a - b) / (tol * (1.0 + np.maximum(np.abs(a), np.abs(b))))))
+
+
 COVREL = {"max_rel": 0.0, "max_white": 0.0, "white_checked": 0, "white_skipped_cond": 0}
 
 
@@ -465,6 +488,7 @@ def run(ctx):
                         "sqrtcov matrices are generated symmetric (R^T R = R R^T), so the C04 finding on the sqrtcov convention does not interfere",
                         "dense arrays only (sparse covariance inputs are not generated)"]
     RETAINED.clear()
+    MARGINS.clear()
     for k_ in COVREL:
         COVREL[k_] = 0 if isinstance(COVREL[k_], int) else 0.0
     import os
@@ -484,6 +508,9 @@ def run(ctx):
     if only is None or "calls" in only.split(","):
         run_calls(ctx, cuqi, np.random.RandomState(ctx.seed * 7919 + 1505), thorough)
     ctx.extra_cov["direct_draw_covariance_relative"] = dict(COVREL)
+    margin("oracle+tie:draw-covariance-max-entry:rel=1e-06", COVREL["max_rel"] / 1e-6)
+    margin("oracle+tie:draw-covariance-whitened:tol=1e-05", COVREL["max_white"] / 1e-5)
+    ctx.extra_cov["tolerance_margins(max passing deviation/tolerance, n)"] = {k: [float(f"{v[0]:.3g}"), v[1]] for k, v in sorted(MARGINS.items())}
     check_retained(ctx)
 
 
@@ -627,6 +654,8 @@ def run_direct(ctx, cuqi, rs, thorough):
     for (key, desc, line, xs), out in zip(pend, douts):
         ctx.case("draw", {"line": line[:300]})
         pred = np.array([float(v) for v in pv(out)]) if out != "bad-op" else None
+        if pred is not None and vclose(xs, pred, 1e-9):
+            margin("tie:draw-affine:tol=1e-09", ratio_close(xs, pred, 1e-9))
         if pred is None or not vclose(xs, pred, 1e-9):
             ctx.disagree(key + ":affine", desc, out[:200], xs.tolist(), "draw is not centre + L xi")
             ctx.fail(key + ":affine", desc, "draw = centre + L xi for the scripted xi", xs.tolist(), "direct draw is not affine in the normal vector")
@@ -649,6 +678,8 @@ def run_direct(ctx, cuqi, rs, thorough):
         scl = float(np.abs(Lm).max(initial=0.0))
         rel = float(np.abs(Lnp - Lm).max(initial=0.0)) / scl if scl > 0 else 0.0
         chist["compared"] += 1; chist["max_rel"] = max(chist["max_rel"], rel)
+        if Lnp.shape == Lm.shape:
+            margin("tie:cholesky-factor:rel=1e-06", rel / 1e-6)
         if Lnp.shape != Lm.shape or rel > 1e-6:
             ctx.disagree(key + ":cholesky", desc, "Lu*sqrt(d) = " + str(Lm.tolist())[:300], Lnp.tolist(), f"Cholesky factor of the direct sampler differs from the model's (relative {rel:.2e})")
             mm_ = cov_mismatch(Lnp @ Lnp.T, ccode)     # the property only needs L L^T = C: another factor of the same C is a broken tie only
@@ -681,6 +712,8 @@ def direct_case(ctx, cuqi, c, rs, hist):
     # ---- tie: get_matrix
     kind, gmm = parse_arr(c.gm_model)
     gscale = float(np.abs(gmm).max(initial=0.0))   # relative to the matrix's own scale (operators live on 1e-15 .. 1e12)
+    if gm.shape == gmm.shape and gscale > 0 and float(np.abs(gm - gmm).max(initial=0.0)) <= TOL * gscale:
+        margin("tie:get_matrix:rel=1e-08", float(np.abs(gm - gmm).max(initial=0.0)) / (TOL * gscale))
     if gm.shape != gmm.shape or not (float(np.abs(gm - gmm).max(initial=0.0)) <= TOL * gscale or (gscale == 0.0 and not gm.any())):
         ctx.disagree(key + ":get_matrix", desc, c.gm_model[:200], str(gm.tolist())[:200], "get_matrix differs from the model")
         # failing-input search (implementation only): the matrix the closed form uses must represent forward on parameters
@@ -721,6 +754,7 @@ def direct_case(ctx, cuqi, c, rs, hist):
         elif mk == "err" or mvv.shape != x.shape or not vclose(x, mvv, TOL):
             ctx.disagree(key, desc, c.map_model[:200], x.tolist(), "MAP: model vs implementation")
         elif mk == "v":
+            margin("tie:MAP-vs-mapDirect:tol=1e-08", ratio_close(x, mvv, TOL))
             if vclose(mvv, rmean, 1e-12):
                 hist["model_eq_ref"] += 1
             else:
@@ -881,14 +915,20 @@ def oracle_point(ctx, key, desc, density, x, ref, rs, info=None, tol_point=1e-7,
     if ref is not None:
         if x.shape != ref.shape or not vclose(x, ref, tol_point):
             bad = ("closed-form posterior mean " + str(ref.tolist()), x.tolist(), f"{what} is not the closed-form maximiser")
+        else:
+            margin(f"oracle:point-vs-reference:tol={tol_point:g}", ratio_close(x, ref, tol_point))
         with quiet():
             lr = float(np.asarray(density.logd(ref)).ravel()[0])
+        if lx >= lr - tol_logd * (1 + abs(lx) + abs(lr)):
+            margin(f"oracle:logd-deficit-vs-reference:tol={tol_logd:g}", max(0.0, lr - lx) / (tol_logd * (1 + abs(lx) + abs(lr))))
         if not (lx >= lr - tol_logd * (1 + abs(lx) + abs(lr))):
             bad = (f"logd(returned) >= logd(reference) = {lr}", lx, f"{what}: density is larger at the closed-form mean than at the returned point")
     if bad is None and x.ndim == 1:
         for y in neighbours(x, rs):
             with quiet():
                 ly = float(np.asarray(density.logd(y)).ravel()[0])
+            if not ly > lx + tol_logd * (1 + abs(lx)) + 1e-12:
+                margin(f"oracle:neighbour-logd-excess:tol={tol_logd:g}", max(0.0, ly - lx) / (tol_logd * (1 + abs(lx)) + 1e-12))
             if ly > lx + tol_logd * (1 + abs(lx)) + 1e-12:
                 bad = (f"no nearby point with larger density (logd={lx})", f"logd({y.tolist()}) = {ly}", f"{what}: a nearby point has larger density")
                 break
@@ -907,6 +947,8 @@ def oracle_point(ctx, key, desc, density, x, ref, rs, info=None, tol_point=1e-7,
         # allowance: absolute (relative to |logd|) + the derivative a displacement of tol_point*(1+|x|) produces at the
         # measured curvature (so that densities of magnitude 1e12 or 1e-12 are judged in relative terms)
         allow = grad_tol * scale * 100 + tol_point * hfd * (1.0 + float(np.abs(x).max(initial=0.0)))
+        if np.all(np.isfinite(gfd)) and not bool(np.any(np.abs(gfd) > allow)):
+            margin(f"oracle:derivative-vs-allowance:grad_tol={grad_tol:g}", float(np.max(np.abs(gfd) / allow)) if len(gfd) else 0.0)
         if not np.all(np.isfinite(gfd)) or bool(np.any(np.abs(gfd) > allow)):
             bad = ("derivative of logd vanishes", gfd.tolist(), f"{what}: the derivative of the log-density does not vanish at the returned point")
         else:
@@ -968,6 +1010,8 @@ def sample_case(ctx, cuqi, c, BP, desc, rmean, rcov, rs, hist):
     cvv = None if ck == "err" else np.atleast_1d(np.asarray(cv, dtype=float)).ravel()
     if ck == "err" or cvv.shape != centre.shape or not vclose(centre, cvv, TOL):
         ctx.disagree(key, desc, c.centre_model[:200], centre.tolist(), "centre of the direct draws: model vs implementation")
+    else:
+        margin("tie:sample-centre-vs-sampleCentre:tol=1e-08", ratio_close(centre, cvv, TOL))
     # affine in xi: model `draw` on the leaf factor L
     for k in range(nrand):   # compared with the model's `draw` after the loop (batched)
         c.pending_draws.append((key, desc, f"draw {qv(centre)} {qm(L)} {qv(script[n + 1 + k])}", X[:, n + 1 + k].copy()))
@@ -1412,6 +1456,8 @@ def run_starts(ctx, cuqi, rs, thorough):
                                 xs = np.asarray(opt.minimize(func, x0f, jac=gradfunc, method=method, **kw)["x"], dtype=float).ravel()
                             else:
                                 xs = np.asarray(fmin_l_bfgs_b(func, x0f, fprime=gradfunc, approx_grad=(1 if gradfunc is None else 0), **kw)[0], dtype=float).ravel()
+                        if x.shape == xs.shape and vclose(x, xs, 2e-3 if vk == "float32" else 1e-5):
+                            margin("tie:opt-start-pass-through:" + ("float32:tol=2e-3" if vk == "float32" else "tol=1e-5"), ratio_close(x, xs, 2e-3 if vk == "float32" else 1e-5))
                         if x.shape != xs.shape or not vclose(x, xs, 2e-3 if vk == "float32" else 1e-5):   # SciPy keeps float32 starts in single precision for a while
                             ctx.disagree(key, desc, "SciPy's x from the float64 start: " + str(xs.tolist()), x.tolist(), "returned point is not SciPy's solution (wrapperResult)")
                     ref = float_ref(BP, which, A, sig2, b, pkind) if pkind == "gmrf" else None
